@@ -27,7 +27,7 @@ COMPONENTS = {"real": ["six parse entry points + plugins", "both serializer inte
 ASSUMPTIONS = ["RDF 1.1 content only; datatypes from a private namespace plus xsd:string so that rdflib's lexical "
                "normalisation cannot differ from the generic integration", "set-like containers compared as sets; "
                "container inputs are fed to the generic side in the order rdflib iterates them"]
-PROBES = ["grouped_inputs", "first_group_empty", "parse_runs", "write_runs", "model_streams", "real_streams", "physical_GRAPHS", "physical_QUADS",
+PROBES = ["sink_vs_sequence_inputs", "grouped_inputs", "first_group_empty", "parse_runs", "write_runs", "model_streams", "real_streams", "physical_GRAPHS", "physical_QUADS",
           "container_inputs", "generator_inputs"]
 SHRINK_LISTS = ["ops", "items"]
 
@@ -39,7 +39,10 @@ def generate(rng, run, tier):
         plan["source"] = "model"
     else:
         physical = rng.choice(["TRIPLES", "QUADS", "GRAPHS"])
-        entry = rng.choice(["frames_gen", "frames_sink", "flat_file", "container_serialize", "grouped_file"])
+        entry = rng.choice(["frames_gen", "frames_sink", "flat_file", "container_serialize", "grouped_file",
+                            "sink_vs_sequence"])
+        if kind != "write" and entry == "sink_vs_sequence":
+            entry = "frames_sink"       # (a pairing of writers: only meaningful on the write side)
         if physical == "GRAPHS" and entry == "flat_file":
             physical = "QUADS"
         stmts, flags, sizes, pools = c01.gen_workload(rng, physical, rdflib_safe=True, max_n=20)
@@ -154,6 +157,28 @@ def write_side(plan, sim):
         return [], None
     if entry == "grouped_file":
         return grouped_write_side(plan, sim, cfg_g, cfg_r, stmts)
+    if entry == "sink_vs_sequence":
+        # the generic sink keeps the order in which statements were added; its rdflib counterpart is the same
+        # statements as a sequence (rdflib has no ordered container)
+        sim.count("sink_vs_sequence_inputs")
+        cfg_g["entry"], cfg_r["entry"] = "frames_sink", "frames_gen"
+        ops_g = [["stmt", *T.to_json(st)] for st in held]
+        try:
+            out_g = nodes.serialize(cfg_g, ops_g, None)
+            out_r = nodes.serialize(cfg_r, plan["ops"], None)
+        except Exception as e:  # noqa: BLE001
+            return [{"clause": "C15.serialize_raised", "sig": {"exc": type(e).__name__},
+                     "msg": f"{type(e).__name__}: {e}"}], None
+        v = []
+        if out_g != out_r:
+            rg = refdec.decode_stream(out_g, True, strict=False)
+            rr = refdec.decode_stream(out_r, True, strict=False)
+            v.append({"clause": "C15.serializers_differ",
+                      "sig": {"physical": cfg_g["physical"], "input": "sink_vs_sequence",
+                              "same_statements": bool(rg.ok and rr.ok and rg.items == rr.items)},
+                      "msg": f"generic sink (insertion order) wrote {len(out_g)} bytes, rdflib wrote {len(out_r)} bytes for "
+                             f"the same statements as a sequence; generic order {rg.items[:3]!r} rdflib order {rr.items[:3]!r}"})
+        return v, (repr(sorted(cfg_g.items())), repr(stmts)) if len(stmts) >= 2 else None
     if entry in ("frames_sink", "container_serialize") and cfg_g["physical"] == "GRAPHS" \
             and not any(st[3] == T.DEFAULT for st in stmts):
         # an rdflib Dataset always has a default graph and writes it even when empty; a sequence of quads
